@@ -438,6 +438,7 @@ def replay(ctx, rp):
     harness, exes = build_all(ctx)
     if case.split()[0] in ('dt', 'hmm', 'dtc'):
         harness = exes.get('tie2')
+    gen_facts(ctx); ctx.regen(['gen_mempooldata.json'])
     have_model = ctx.prove() and ctx.extract()
     if case.split()[0] in ('om', 'arr', 'hs', 'ts', 'crew', 'pools', 'tsn', 'hsf', 'sa', 'sa2', 'grow', 'growa', 'pc', 'migv', 'dtc', 'rel', 'dt', 'hmm'):
         if harness is None or not have_model:
@@ -462,8 +463,35 @@ def replay(ctx, rp):
     print('property holds on this case'); return 0
 
 
+def gen_facts(ctx):
+    """T-gen (AST facts, astfacts.py): the statements of the catch blocks / branches / small functions where this project's release-discipline
+    defects lived are read off the clang AST of the CURRENT headers (ctx.repo) and written to coq/Gen_C03Facts.v; coq/GenTie.v interprets them
+    and instantiates the hand model at the result (theorems C03_gen_*).  A stale fact file must never keep the proofs green."""
+    import importlib.util, hashlib
+    out = os.path.join(ctx.cdir, 'Gen_C03Facts.v')
+    try:
+        sp = importlib.util.spec_from_file_location('c03_astfacts', os.path.join(ctx.pdir, 'astfacts.py'))
+        m = importlib.util.module_from_spec(sp); sp.loader.exec_module(m)
+        txt = m.facts_text(os.path.join(ctx.pdir, 'inst_facts.cpp'), ctx.repo, ctx.root)
+        if not os.path.exists(out) or open(out).read() != txt:
+            open(out, 'w').write(txt)
+        ctx.tie_obligations.append({'name': 'translate Gen_C03Facts (AST facts: HashSet/TreeSet constructor catch blocks, DataTable::pvFill catch, HashMultiMap copy row, '
+                                            'TreeSet::MergeTo empty-destination branch, Relocator::CreateNode + ~Relocator, MemPool::Data::Swap, MemPool::MergeFrom links, '
+                                            'pvRebalance collapse loop, noexcept flag of select_on_container_copy_construction)', 'ok': True,
+                                    'sha256': hashlib.sha256(txt.encode()).hexdigest()[:16]})
+        ctx.stage('regen', True, '')
+        return True
+    except Exception as e:
+        if os.path.exists(out):
+            os.remove(out)
+        ctx.tie_obligations.append({'name': 'translate Gen_C03Facts', 'ok': False, 'error': str(e)[:400]})
+        ctx.stage('regen', False, 'AST facts: %s' % str(e)[:300])
+        return False
+
+
 def run(ctx):
-    ctx.trusted += ['extraction: ExtrOcamlBasic only (no Extract Constant), OCaml 4.13.1, zarith for decimal I/O only',
+    ctx.trusted += ['props/C03/astfacts.py (own walker over the clang 14 JSON AST, helpers of tools/cxx2coq.py) for the statement lists of Gen_C03Facts.v; the MEANING given to them (pointer states, swapped field sets, Relocator steps, pointer machine) is GenTie.v',
+                    'extraction: ExtrOcamlBasic only (no Extract Constant), OCaml 4.13.1, zarith for decimal I/O only',
                     'harness/kit.h instrumentation (address registry, size/identity-checked manager, structured event log) and the token -> event '
                     'conversion in ocaml/driver.ml (copy/move = use of the source + construction of the destination)',
                     'g++ 12 -std=c++17; thorough tier: ASan+UBSan and kit red zones for "no access outside live blocks"']
@@ -472,6 +500,10 @@ def run(ctx):
                         'element categories modelled: nothrow-move and genuinely copy-only; trivially relocatable items (memcpy) have no element events',
                         '"no memory is read or written outside live blocks" is a runtime check (ASan, red zones) - partial',
                         'whole-container statement (all operations, all histories) is checked by the proved monitor on generated histories, not proved']
+    ok_facts = gen_facts(ctx)
+    ok_gen = ctx.regen(['gen_mempooldata.json'])       # MemPool::Data::Swap translated by tools/cxx2coq.py (config copied from C14)
+    if not ok_facts:
+        ctx.stage('regen', False, 'AST facts (see tie obligations)')
     ctx.prove()
     harness, exes = build_all(ctx)
     harness2 = exes.pop('tie2', None)
